@@ -114,6 +114,8 @@ pub struct EvalLog {
     pub keep: bool,
     pub count: u64,
     pub flow_updates: u64,
+    /// unrecoverable errors / expand failures actually returned to the sampler
+    pub fatal_hits: u64,
 }
 
 /// Shape of the expanded vector the density produces per draw (draw variables of the trace).
@@ -349,7 +351,13 @@ impl CpuLogpFunc for TestLogp {
         match fault {
             None => {}
             Some(Fault::Rec) => res = Err(TestLogpError::Recoverable),
-            Some(Fault::Unrec) => res = Err(TestLogpError::Unrecoverable),
+            Some(Fault::Unrec) => {
+                self.log.lock().unwrap().fatal_hits += 1;
+                if let Some(tag) = self.chain_tag {
+                    nuts_rs::verif::sched::point("chain", "fatal", tag, k);
+                }
+                res = Err(TestLogpError::Unrecoverable)
+            }
             Some(Fault::NanLogp) => logp = f64::NAN,
             Some(Fault::InfLogp) => logp = f64::INFINITY,
             Some(Fault::NegInfLogp) => logp = f64::NEG_INFINITY,
@@ -390,6 +398,7 @@ impl CpuLogpFunc for TestLogp {
             n
         };
         if self.expand_fails_at == Some(n) {
+            self.log.lock().unwrap().fatal_hits += 1;
             return Err(CpuMathError::ExpandError("scripted expand failure".into()));
         }
         if self.schema.vars.is_empty() {
